@@ -53,8 +53,24 @@ func buildSMT(rep *FuncReport, o *Obligation, withModel bool) string {
 		b.WriteString("\n")
 	}
 	for _, l := range rep.Decls {
+		if o.NoQuant && rep.D != nil {
+			if d, ok := rep.D.defines[l]; ok {
+				b.WriteString(d)
+				b.WriteString("\n")
+				continue
+			}
+			if rep.D.declSkip[l] {
+				continue
+			}
+		}
 		if skipQ && strings.HasPrefix(l, "(assert (forall") {
 			continue
+		}
+		if rep.D != nil && rep.Reveal != nil {
+			// definitions of opaque spec functions are hidden unless revealed
+			if fn, ok := rep.D.opaqueAxiom[l]; ok && !rep.Reveal[fn] && !rep.Reveal["*"] && !(o.Kind == "assert" && rep.Reveal["assert:"+fn]) {
+				continue
+			}
 		}
 		b.WriteString(l)
 		b.WriteString("\n")
@@ -63,14 +79,27 @@ func buildSMT(rep *FuncReport, o *Obligation, withModel bool) string {
 		b.WriteString(e)
 		b.WriteString("\n")
 	}
-	for _, g := range rep.Global {
+	keepG, keepH := coneOfInfluence(rep, o)
+	for i, g := range rep.Global {
 		if skipQ && strings.HasPrefix(g.S, "(forall") {
+			if e, ok := expandBounded(g.S); ok && o.NoQuant && !strings.Contains(e, "(forall") {
+				fmt.Fprintf(&b, "(assert %s)\n", e)
+			}
+			continue
+		}
+		if keepG != nil && !keepG[i] {
 			continue
 		}
 		fmt.Fprintf(&b, "(assert %s)\n", g.S)
 	}
-	for _, h := range o.Hyps {
+	for i, h := range o.Hyps {
 		if skipQ && strings.Contains(h.S, "(forall") {
+			if e, ok := expandBounded(h.S); ok && o.NoQuant && !strings.Contains(e, "(forall") {
+				fmt.Fprintf(&b, "(assert %s)\n", e)
+			}
+			continue
+		}
+		if keepH != nil && !keepH[i] {
 			continue
 		}
 		fmt.Fprintf(&b, "(assert %s)\n", h.S)
@@ -118,8 +147,24 @@ func runSolver(ctx context.Context, spec solverSpec, file string, timeoutS, seed
 	return "unknown", out, dur
 }
 
-// Solve races the portfolio on one obligation.
+// Solve discharges one obligation: the full context first; if that is undecided, a
+// second attempt with the focused hypothesis selection (dropping hypotheses is sound).
 func Solve(rep *FuncReport, o *Obligation, dir string, idx int, timeoutS, seed int, need int) *SolveResult {
+	res := solveOnce(rep, o, dir, idx, timeoutS, seed, need)
+	if res.Status == "unknown" && o.Expect != "sat" && !o.Derived {
+		o2 := *o
+		o2.Focus = true
+		r2 := solveOnce(rep, &o2, dir, idx+100000, timeoutS, seed, need)
+		if r2.Status == "unsat" {
+			r2.Solver += "(focused)"
+			r2.TimeS += res.TimeS
+			return r2
+		}
+	}
+	return res
+}
+
+func solveOnce(rep *FuncReport, o *Obligation, dir string, idx int, timeoutS, seed int, need int) *SolveResult {
 	res := &SolveResult{Outputs: map[string]string{}}
 	if o.Derived {
 		res.Status = "unsat"
@@ -234,4 +279,257 @@ func SolveAll(reps []*FuncReport, dir string, timeoutS, seed, need, workers int)
 	}
 	close(ch)
 	wg.Wait()
+}
+
+// symbolsOf extracts the user-declared symbols (those containing '!' or with the
+// uf_/sf_/err_/ref! prefixes) occurring in an SMT term.
+func symbolsOf(s string) []string {
+	var out []string
+	i := 0
+	for i < len(s) {
+		c := s[i]
+		if c == '(' || c == ')' || c == ' ' || c == '\n' {
+			i++
+			continue
+		}
+		j := i
+		for j < len(s) && s[j] != '(' && s[j] != ')' && s[j] != ' ' && s[j] != '\n' {
+			j++
+		}
+		tok := s[i:j]
+		if strings.Contains(tok, "!") || strings.HasPrefix(tok, "uf_") || strings.HasPrefix(tok, "sf_") || strings.HasPrefix(tok, "err_") {
+			out = append(out, tok)
+		}
+		i = j
+	}
+	return out
+}
+
+// coneOfInfluence keeps only the hypotheses that (transitively) share a symbol with
+// the goal.  Dropping hypotheses is sound for proving (it only weakens the context);
+// it keeps unrelated nonlinear facts of a path away from linear goals.  For
+// expected-sat (vacuity) checks everything is kept.
+func coneOfInfluence(rep *FuncReport, o *Obligation) (keepG, keepH []bool) {
+	if o.Expect == "sat" || os.Getenv("GOVC_NO_COI") != "" {
+		return nil, nil
+	}
+	if o.Focus {
+		return focusedHyps(rep, o)
+	}
+	rel := map[string]bool{}
+	for _, sy := range symbolsOf(o.Goal.S) {
+		rel[sy] = true
+	}
+	for _, e := range o.Extra {
+		for _, sy := range symbolsOf(e) {
+			rel[sy] = true
+		}
+	}
+	gs := make([][]string, len(rep.Global))
+	for i, g := range rep.Global {
+		gs[i] = symbolsOf(g.S)
+	}
+	hs := make([][]string, len(o.Hyps))
+	for i, h := range o.Hyps {
+		hs[i] = symbolsOf(h.S)
+	}
+	keepG = make([]bool, len(rep.Global))
+	keepH = make([]bool, len(o.Hyps))
+	touch := func(syms []string) bool {
+		for _, sy := range syms {
+			if rel[sy] {
+				return true
+			}
+		}
+		return false
+	}
+	for changed := true; changed; {
+		changed = false
+		for i := range gs {
+			if !keepG[i] && (len(gs[i]) == 0 || touch(gs[i])) {
+				keepG[i] = true
+				changed = true
+				for _, sy := range gs[i] {
+					rel[sy] = true
+				}
+			}
+		}
+		for i := range hs {
+			if !keepH[i] && (len(hs[i]) == 0 || touch(hs[i])) {
+				keepH[i] = true
+				changed = true
+				for _, sy := range hs[i] {
+					rel[sy] = true
+				}
+			}
+		}
+	}
+	return keepG, keepH
+}
+
+// expandBounded rewrites (forall ((v Int)) (=> (and ... (<= L v) ... (< v H) ...) body))
+// with literal bounds and H-L <= 64 into the conjunction of its instances.  Used only
+// in counterexample-search mode (quantified hypotheses would otherwise be dropped).
+func expandBounded(term string) (string, bool) {
+	ps := parseSx(term)
+	if len(ps) != 1 {
+		return "", false
+	}
+	x := ps[0]
+	if x.list == nil || len(x.list) != 3 || x.list[0].atom != "forall" {
+		return "", false
+	}
+	binders := x.list[1]
+	if binders.list == nil || len(binders.list) != 1 || len(binders.list[0].list) != 2 || binders.list[0].list[1].atom != "Int" {
+		return "", false
+	}
+	v := binders.list[0].list[0].atom
+	body := x.list[2]
+	if body.list != nil && len(body.list) >= 2 && body.list[0].atom == "!" {
+		body = body.list[1]
+	}
+	if body.list == nil || len(body.list) != 3 || body.list[0].atom != "=>" {
+		return "", false
+	}
+	var conj []*sx
+	var flat func(g *sx)
+	flat = func(g *sx) {
+		if g.list != nil && len(g.list) > 0 && g.list[0].atom == "and" {
+			for _, c := range g.list[1:] {
+				flat(c)
+			}
+			return
+		}
+		conj = append(conj, g)
+	}
+	flat(body.list[1])
+	var lo, hi *int64
+	for _, c := range conj {
+		if c.list == nil || len(c.list) != 3 {
+			continue
+		}
+		op, a, b := c.list[0].atom, c.list[1], c.list[2]
+		if op == "<=" && b.atom == v {
+			if n, ok := sxInt(a); ok && n.IsInt64() {
+				t := n.Int64()
+				lo = &t
+			}
+		}
+		if op == "<" && a.atom == v {
+			if n, ok := sxInt(b); ok && n.IsInt64() {
+				t := n.Int64()
+				hi = &t
+			}
+		}
+		if op == "<=" && a.atom == v {
+			if n, ok := sxInt(b); ok && n.IsInt64() {
+				t := n.Int64() + 1
+				hi = &t
+			}
+		}
+	}
+	if lo == nil || hi == nil || *hi-*lo > 64 || *hi <= *lo {
+		return "", false
+	}
+	var subst func(n *sx, val string) string
+	subst = func(n *sx, val string) string {
+		if n.list == nil {
+			if n.atom == v {
+				return val
+			}
+			return n.atom
+		}
+		parts := make([]string, len(n.list))
+		for i, e := range n.list {
+			parts[i] = subst(e, val)
+		}
+		return "(" + strings.Join(parts, " ") + ")"
+	}
+	var insts []string
+	for i := *lo; i < *hi; i++ {
+		val := fmt.Sprint(i)
+		if i < 0 {
+			val = fmt.Sprintf("(- %d)", -i)
+		}
+		inst := subst(body, val)
+		// nested bounded quantifiers
+		insts = append(insts, expandNested(inst))
+	}
+	return "(and " + strings.Join(insts, " ") + ")", true
+}
+
+// expandNested expands bounded foralls occurring at the top of an implication body.
+func expandNested(t string) string {
+	if !strings.Contains(t, "(forall") {
+		return t
+	}
+	if strings.HasPrefix(t, "(forall") {
+		if e, ok := expandBounded(t); ok {
+			return e
+		}
+	}
+	return t
+}
+
+// focusedHyps: a tighter (still sound) hypothesis selection used as a second attempt.
+// The relevant symbol set is the goal's symbols closed under SSA definitions
+// `(= sym expr)`; a hypothesis is kept iff it mentions a relevant symbol, but
+// (unlike the transitive cone) kept hypotheses do not make further symbols relevant.
+func focusedHyps(rep *FuncReport, o *Obligation) (keepG, keepH []bool) {
+	rel := map[string]bool{}
+	for _, sy := range symbolsOf(o.Goal.S) {
+		rel[sy] = true
+	}
+	defOf := func(s string) (string, bool) {
+		if !strings.HasPrefix(s, "(= ") {
+			return "", false
+		}
+		rest := s[3:]
+		i := strings.IndexAny(rest, " )")
+		if i <= 0 || strings.HasPrefix(rest, "(") {
+			return "", false
+		}
+		return rest[:i], true
+	}
+	all := make([]string, 0, len(rep.Global)+len(o.Hyps))
+	for _, g := range rep.Global {
+		all = append(all, g.S)
+	}
+	for _, h := range o.Hyps {
+		all = append(all, h.S)
+	}
+	for changed := true; changed; {
+		changed = false
+		for _, h := range all {
+			if sym, ok := defOf(h); ok && rel[sym] {
+				for _, sy := range symbolsOf(h) {
+					if !rel[sy] {
+						rel[sy] = true
+						changed = true
+					}
+				}
+			}
+		}
+	}
+	keep := func(h string) bool {
+		syms := symbolsOf(h)
+		if len(syms) == 0 {
+			return true
+		}
+		for _, sy := range syms {
+			if rel[sy] && !strings.HasPrefix(sy, "uf_") && !strings.HasPrefix(sy, "sf_") {
+				return true
+			}
+		}
+		return false
+	}
+	keepG = make([]bool, len(rep.Global))
+	keepH = make([]bool, len(o.Hyps))
+	for i, g := range rep.Global {
+		keepG[i] = keep(g.S)
+	}
+	for i, h := range o.Hyps {
+		keepH[i] = keep(h.S)
+	}
+	return keepG, keepH
 }
